@@ -58,36 +58,30 @@ def c20(tier, seed):
             infos[h] = info
         nnames = sum(len(i['macros']) + len(i['enums']) + len(i['types']) for i in infos.values())
 
+        sys.path.insert(0, os.path.join(VERIF, 'spec'))
+        import spec as S
+        formats = {f['header']: f for f in S.load()['formats']}
+
         def alone_run(job):
             h, lang = job
-            info = infos[h]
-            for attempt in range(6):
-                st, res, raw = R.build_run([h], {h: info}, lang)
-                if st == 'compile-error' and attempt < 5:
-                    # macros that are not integer constant expressions are not "values": drop them from the dump
-                    bad = set()
-                    tu = H.make_tu([h], {h: info}).split('\n')
-                    import re
-                    for m in re.finditer(r':(\d+):\d+: error', raw):
-                        ln = int(m.group(1)) - 1
-                        mm = re.search(r'P\("[^"]*", "(\w+)"', tu[ln]) if 0 <= ln < len(tu) else None
-                        if mm:
-                            bad.add(mm.group(1))
-                    drop = [x for x in info['macros'] if x[0] in bad]
-                    if not drop:
-                        break
-                    info = dict(info, macros=[x for x in info['macros'] if x[0] not in bad])
-                    continue
-                break
-            return h, lang, st, res, raw, info
+            st, res, raw = R.build_run([h], {h: infos[h]}, lang, formats)
+            return h, lang, st, res, raw
         jobs = [(h, l) for h in infos for l in ('c', 'cpp')]
-        for h, lang, st, res, raw, info in vlib.run_parallel(alone_run, jobs):
-            if lang == 'c':
-                infos[h] = info if len(info['macros']) <= len(infos[h]['macros']) else infos[h]
+        notvalue = {}
+        for h, lang, st, res, raw in vlib.run_parallel(alone_run, jobs):
             if st != 'ok':
                 obs.add_viol('headers:%s:%s:%s-alone:%s' % (h, lang, st, res), dict(diagnostic=raw[:800]))
             else:
                 alone[lang][h] = {n: v for (hh, n), v in res.items() if hh == h}
+                for n, v in alone[lang][h].items():
+                    if v in ('undefined', 'not-an-integer-constant-expression'):
+                        notvalue.setdefault(h, set()).add(n)
+        # names that are not integer values (or are undefined again) at the end of their own header are not public values
+        for h, names in notvalue.items():
+            infos[h] = dict(infos[h], macros=[x for x in infos[h]['macros'] if x[0] not in names], enums=[x for x in infos[h]['enums'] if x not in names])
+            for lang in ('c', 'cpp'):
+                for n in names:
+                    alone[lang].get(h, {}).pop(n, None)
         # intersect macro lists so that both languages dump the same names
         ok_headers = [h for h in headers if h in alone['c'] and h in alone['cpp']]
         evals = 0
@@ -111,7 +105,7 @@ def c20(tier, seed):
 
         def pair_run(job):
             a, b, lang = job
-            st, res, raw = R.build_run([a, b], infos, lang)
+            st, res, raw = R.build_run([a, b], infos, lang, formats)
             return job, st, res, raw
         pair_bad = {}     # (a,b) -> set of reasons, used to explain larger sets
         for (a, b, lang), st, res, raw in vlib.run_parallel(pair_run, pair_jobs):
@@ -141,6 +135,11 @@ def c20(tier, seed):
         for k in range(12 if tier == 'quick' else 500):
             n = rng.randint(3, len(ok_headers) - 1)
             sets.append(rng.sample(ok_headers, n))
+        # ordered triples: all of those coupled through a shared macro name or #pragma state; a sample (quick) or all (thorough) of the rest
+        coupled, coupling = H.coupled_triples(repo, ok_headers)
+        sets += coupled
+        all_triples = [[a, b, c2] for a in ok_headers for b in ok_headers for c2 in ok_headers if len({a, b, c2}) == 3]
+        sets += all_triples if tier == 'thorough' else rng.sample(all_triples, 60)
 
         def set_run(job):
             hs, lang = job
@@ -162,9 +161,9 @@ def c20(tier, seed):
                             break
                     if changed:
                         break
-            st, res, raw = R.build_run(cur, infos, lang)
+            st, res, raw = R.build_run(cur, infos, lang, formats)
             return hs, cur, dropped, lang, st, res, raw
-        for hs, cur, dropped, lang, st, res, raw in vlib.run_parallel(set_run, [(s, l) for s in sets for l in ('c', 'cpp')]):
+        for hs, cur, dropped, lang, st, res, raw in vlib.run_parallel(set_run, [(s, l) for s in sets for l in (('c', 'cpp') if len(s) != 3 or s in coupled else ('c',))]):
             evals += 1
             sid = 'set%d:%s' % (len(cur), __import__('hashlib').sha1('+'.join(cur).encode()).hexdigest()[:10])
             if st != 'ok':
@@ -175,12 +174,16 @@ def c20(tier, seed):
                 obs.add_viol('headers:%s:%s:name-changed:%s:%s' % (sid, lang, h, n), dict(describe(h, n, av, v), order=cur, dropped_known_conflicts=dropped))
         obs.stat('evals', evals + len(jobs))
         cov = dict(distinct_nontrivial=distinct, headers=len(headers), public_names=nnames, ordered_pairs=len(pair_jobs) // 2,
-                   larger_sets=len(sets), exhaustive=True, samples=samples or [dict(headers=len(headers))],
+                   larger_sets=len(sets), macro_coupled_triples=len(coupled), macro_couplings=coupling, exhaustive=True, samples=samples or [dict(headers=len(headers))],
                    rule='%d public headers: names (%d object-like integer macros, enumerators, struct typedefs) attributed to their '
                         'defining header from gcc -E -dD output; each header alone, every ordered pair (exhaustive) and %d larger sets/'
                         'orders are turned into a translation unit that prints every owned name (values, sizeof, offsetof), compiled '
                         'as C99 (gcc) and C++17 (g++), linked against the library and executed; every printed value must equal the '
-                        'alone-dump, and field enumerators are mapped by execution of the generic writer to the bits they designate.  '
+                        'alone-dump, and field enumerators are mapped by execution of the generic writer to the bits they designate.  Every unit is '
+                        'compiled at -O2 in two steps (includes only; then the dump), linked with a second unit including the same headers (a '
+                        'definition leaking from a header breaks the link) and contains, for C, a direct-call behaviour probe of the format '
+                        'the header declares (get, set, get, replace bytes, get).  Ordered triples coupled through a shared macro name or '
+                        '#pragma state are enumerated completely, all other ordered triples sampled (quick) or enumerated (thorough).  '
                         'distinct_nontrivial = translation units that compiled, ran and were compared.' % (len(headers), nnames, len(sets)))
         obs.procs = evals
         obs.ended = evals
